@@ -186,6 +186,11 @@ def render(obj, ospec, req, conf_dict, live_conf=None, observe=None):
     elif via in ('custom_palette', 'custom_palette2', 'custom_palette3', 'custom_palette4') and kind == 'table':
         kw = dict(palette=custom_table_palette(int(via[-1]) if via[-1].isdigit() else 1), colors_conf=conf,
                   no_color=no_color)
+    elif via == 'palette_synced' and kind in ('pp', 'ghist'):
+        # a palette OBJECT that follows the global configuration (synced=True) is given, with or without no_color
+        akcolor.set_global_colors_config(conf)
+        made_global = True
+        kw = dict(palette=PALETTE_CLASSES[kind]()(synced=True), no_color=no_color)
     elif via == 'palette_obj' and kind in PALETTE_CLASSES:
         kw = dict(palette=PALETTE_CLASSES[kind]()(conf), no_color=no_color)
     else:
@@ -286,8 +291,10 @@ def main():
         ospec = scenario['objects'][req['obj']]
         shared = {}
         if ospec['kind'] == 'table' and req.get('set_fmt') and 'base_spec' not in ospec:
-            ospec = dict(ospec, fmt=req['set_fmt'])
+            # (a format that gave only the limits again: the reference takes the columns that were in force then)
+            ospec = dict(ospec, fmt=req.get('ref_fmt') or req['set_fmt'])
             req.pop('set_fmt')
+        req.pop('ref_fmt', None)
         obj = build_object(ospec, shared)
         keep.append((obj, shared))
         try:
